@@ -422,10 +422,13 @@ pub fn run(pid: &'static str, ctx: &Ctx, rep: &mut Report) {
     let calls = pid == "C15";
     let (dt, dp) = match (calls, ctx.tier) {
         (false, Tier::Quick) => (5, 5),
-        (false, Tier::Thorough) => (6, 7),
+        (false, Tier::Thorough) => (6, 6),
         (true, Tier::Quick) => (4, 4),
         (true, Tier::Thorough) => (5, 5),
     };
+    // the deepest bound only in the default build and its detection-off twin; one level less elsewhere
+    let deep = ctx.config.starts_with("N0-") || ctx.config.starts_with("N0d-");
+    let (dt, dp) = if ctx.tier == Tier::Thorough && !deep { (dt - 1, dp - 1) } else { (dt, dp) };
     let subjects = all_subjects();
     let fams = families(&subjects, ctx, dt, dp, calls);
     drop(subjects);
